@@ -213,11 +213,11 @@ func c15Check(v any) (fp, msg string) {
 		return fail("C15:panic:AsMap", "%s", m)
 	}
 	wm, wmok := v.(map[string]any)
-	if gok != wmok || !sameValue(gm, wm) {
-		return fail("C15:AsMap", "AsMap ok=%v, documented ok=%v (same map: %v)", gok, wmok, sameValue(gm, wm))
+	if gok != wmok || !sameOrDeep(gm, wm) {
+		return fail("C15:AsMap", "AsMap ok=%v, documented ok=%v (same map: %v)", gok, wmok, sameOrDeep(gm, wm))
 	}
 	dm := map[string]any{"default": 1}
-	if got := r.AsMapOr(dm); (wmok && !sameValue(got, wm)) || (!wmok && !sameValue(got, dm)) {
+	if got := r.AsMapOr(dm); (wmok && !sameOrDeep(got, wm)) || (!wmok && !sameOrDeep(got, dm)) {
 		return fail("C15:AsMapOr", "AsMapOr returned the wrong map (ok=%v)", wmok)
 	}
 	if mustPanics(func() { _ = r.MustMap() }) == wmok {
@@ -227,7 +227,7 @@ func c15Check(v any) (fp, msg string) {
 	if m = guard("GetMap/Or", func() { sm1, sm2 = s.GetMap("k"), s.GetMapOr("k", dm) }); m != "" {
 		return fail("C15:panic:GetMap", "%s", m)
 	}
-	if !sameValue(sm1, r.AsMapOr(nil)) || !sameValue(sm2, r.AsMapOr(dm)) {
+	if !sameOrDeep(sm1, r.AsMapOr(nil)) || !sameOrDeep(sm2, r.AsMapOr(dm)) {
 		return fail("C15:store-map", "store GetMap/GetMapOr disagree with the result accessor")
 	}
 	// ---------- slice
@@ -385,7 +385,7 @@ func c15Missing() (fp, msg string) {
 			*m = "GetBool on missing key"
 		case s.GetSlice("x") != nil || len(s.GetSliceOr("x", ds)) != 1:
 			*m = "GetSlice on missing key"
-		case s.GetMap("x") != nil || !sameValue(s.GetMapOr("x", dm), dm):
+		case s.GetMap("x") != nil || !sameOrDeep(s.GetMapOr("x", dm), dm):
 			*m = "GetMap on missing key"
 		}
 	}); m != "" {
